@@ -6,7 +6,8 @@ Restart model for C16 (review round 2, F2): one `HttpServer` object across `stop
 resets `_transport` whether or not handlers are still running; the pool (`_threadPool`, a member) and its queued and
 running tasks survive.  `start()` clears `_shutdown` and installs a NEW transport whose engine numbers its sessions from 1
 again.  A task addresses its commands by session id only; whether it also checks that the transport is still the one its
-request arrived on is the translator fact `Gen.dispatchChecksGeneration` (parameter `guarded` here).
+request arrived on, and whether that identity is read at dispatch or only when a worker starts the task, are the translator
+facts `Gen.dispatchChecksGeneration` / `Gen.epochCapturedAtDispatch` (parameter `k : EpochCheck` here).
 
 A logged command records both generations, so "the response went to the connection the request came from" is
 `transportGen = arrivedGen`.
@@ -25,11 +26,29 @@ structure RCmd where
 
 /-- one accepted request: the lambda `[this, sid, requestData]` in `ThreadPool::_tasks` or on a worker -/
 structure RTask where
+  /-- ghost: the generation of the transport the request arrived on -/
   gen : Nat
+  /-- the epoch value the worker compares with `_transportEpoch` in its guards (`epoch` of `processHttpRequest`) -/
+  stamp : Nat
   sid : Nat
   cmds : List Cmd
   running : Bool := false
   deriving DecidableEq, Repr
+
+/-- what the worker knows about the transport its request came from -/
+inductive EpochCheck where
+  /-- nothing: commands are addressed by session id only (the code before FC16e) -/
+  | none
+  /-- `_transportEpoch.load()` is evaluated inside the pool lambda, i.e. when a worker STARTS the task: a request that is still
+      queued across `stop()` + `start()` gets the new transport's epoch -/
+  | atTaskStart
+  /-- the epoch is read by `handleIncomingData` on the I/O thread and captured by value into the lambda (FC16e) -/
+  | atDispatch
+  deriving DecidableEq, Repr
+
+/-- from the two translator facts: do the worker's guards compare an epoch, and is it the one captured at dispatch? -/
+def EpochCheck.ofFacts (guardsCheck capturedAtDispatch : Bool) : EpochCheck :=
+  if !guardsCheck then .none else if capturedAtDispatch then .atDispatch else .atTaskStart
 
 structure RPool where
   /-- number of `start()` calls so far: the identity of `_transport` -/
@@ -53,9 +72,12 @@ inductive RStep where
 def rqueued (ts : List RTask) : Nat := (ts.filter (fun t => !t.running)).length
 def rrunning (ts : List RTask) : Nat := (ts.filter (fun t => t.running)).length
 
-def rmarkFirst : List RTask → List RTask
+/-- a worker takes the first queued task; `restamp = some g`: the lambda reads the epoch now -/
+def rmarkFirst (restamp : Option Nat) : List RTask → List RTask
   | [] => []
-  | t :: ts => if t.running then t :: rmarkFirst ts else { t with running := true } :: ts
+  | t :: ts =>
+    if t.running then t :: rmarkFirst restamp ts
+    else { t with running := true, stamp := (match restamp with | some g => g | none => t.stamp) } :: ts
 
 /-- task `i` issues its next command (if it is running); a task without commands left retires -/
 def remitAt : List RTask → Nat → Option (RTask × Cmd) × List RTask
@@ -71,39 +93,42 @@ def remitAt : List RTask → Nat → Option (RTask × Cmd) × List RTask
     let r := remitAt ts i
     (r.1, t :: r.2)
 
-/-- `guarded`: every `_transport && !_shutdown` guard of the worker also compares the generation captured at dispatch -/
-def stepR (guarded : Bool) (P : Params) (p : RPool) : RStep → RPool
+/-- `k`: which epoch, if any, every `_transport && !_shutdown` guard of the worker compares with the current one -/
+def stepR (k : EpochCheck) (P : Params) (p : RPool) : RStep → RPool
   | .arrive sid data =>
     -- no transport, no I/O thread, no arrival
     if !p.up then p
     else if rqueued p.tasks ≥ P.qcap then
       -- `sendErrorResponse` on the I/O thread of the current transport
       { p with log := p.log ++ (overflowCmds (isHeadRaw data)).map (fun c => ⟨p.gen, p.gen, sid, c⟩) }
-    else { p with tasks := p.tasks ++ [{ gen := p.gen, sid := sid, cmds := P.respond sid data }] }
-  | .pick => if rrunning p.tasks < P.w then { p with tasks := rmarkFirst p.tasks } else p
+    else { p with tasks := p.tasks ++ [{ gen := p.gen, stamp := p.gen, sid := sid, cmds := P.respond sid data }] }
+  | .pick =>
+    if rrunning p.tasks < P.w then
+      { p with tasks := rmarkFirst (if k = .atTaskStart then some p.gen else none) p.tasks }
+    else p
   | .emit i =>
     let r := remitAt p.tasks i
     match r.1 with
     | none => { p with tasks := r.2 }
     | some (t, c) =>
-      -- the guarded send / close block: skipped while the server is down (and, if `guarded`, for a stale generation)
-      if p.up && (!guarded || t.gen == p.gen) then { p with tasks := r.2, log := p.log ++ [⟨p.gen, t.gen, t.sid, c⟩] }
+      -- the guarded send / close block: skipped while the server is down (and, if an epoch is checked, for a stale one)
+      if p.up && (k == .none || t.stamp == p.gen) then { p with tasks := r.2, log := p.log ++ [⟨p.gen, t.gen, t.sid, c⟩] }
       else { p with tasks := r.2 }
   | .stop => { p with up := false }
   | .start => { p with up := true, gen := p.gen + 1 }
 
-def runR (guarded : Bool) (P : Params) (p : RPool) (steps : List RStep) : RPool := steps.foldl (stepR guarded P) p
+def runR (k : EpochCheck) (P : Params) (p : RPool) (steps : List RStep) : RPool := steps.foldl (stepR k P) p
 
 /-- every command reached the transport its request arrived on -/
 def LogSameGen (l : List RCmd) : Prop := ∀ e ∈ l, e.transportGen = e.arrivedGen
 
 /-- hypothesis of the partial theorem: `start()` is called only when no task of the previous generation is left (the drain
     wait of `stop()` did not expire, or the application waited) -/
-def StartsDrained (guarded : Bool) (P : Params) : RPool → List RStep → Prop
+def StartsDrained (k : EpochCheck) (P : Params) : RPool → List RStep → Prop
   | _, [] => True
   | p, s :: rest =>
     (match s with
      | .start => p.tasks = []
-     | _ => True) ∧ StartsDrained guarded P (stepR guarded P p s) rest
+     | _ => True) ∧ StartsDrained k P (stepR k P p s) rest
 
 end Iora.HttpRespond
